@@ -28,7 +28,17 @@ statement monad of coq/theories/PyPreludePipeline.v (`stm A` = Pipeline.v's writ
   for x in <list>: B                          state <~ for_ l (fun x state => B; next state) state0 ;; ...
                                               (`state` = the variables B re-binds that exist before the loop)
   logging calls, docstrings, pass             nothing
-Everything else raises Unsupported: `finally`, `while`, `with`, `break` / `continue`, `return <value>` in a function
+  [srcloop] additions:
+  for a, b in <list of pairs>: B              for_ l (fun '(a, b) state => ...)
+  continue                                    continue_ state      and the loop it belongs to becomes `for_c l body state0`
+                                              (the unit's prelude defines both; a `return` inside such a loop is rejected)
+  return [await] <primitive>(...)             v <~ lift (prim ...) ;; return_v v
+  a statement on which no path falls          is the last of its block (bind_outs: nothing is bound after it)
+  through (try/if whose arms all return), at the end of a function with a declared result
+  spec key "scope" (text after the imports, e.g. "Open Scope Z_scope."); function spec key "body_of":
+  f(function node) -> (statements to translate, extra (name, Ty) parameters) - e.g. the body of one iteration of a
+  function that is `<set-up>; while True: <body>` (the hook itself must be fail-closed about the shape it accepts)
+Everything else raises Unsupported: `finally`, `while`, `with`, `break`, `return <value>` in a function
 without declared result, several `except` clauses, tuples of exception classes, loop `else`, awaits that are not
 primitives of the unit, nested functions, ...
 
@@ -68,6 +78,10 @@ class _Dup(Exception):
     pass
 
 
+class _OffEnd(Unsupported):     # [srcloop] the fall-through end of a function that has a declared result was reached
+    pass
+
+
 def names_used(stmts):
     return {n.id for s in stmts for n in ast.walk(s) if isinstance(n, ast.Name)}
 
@@ -91,6 +105,8 @@ def assigned(fn, stmts):
             out |= assigned(fn, s.body) | assigned(fn, s.orelse)
             if isinstance(s.target, ast.Name):
                 out.add(s.target.id)
+            elif isinstance(s.target, ast.Tuple):                       # [srcloop]
+                out |= {e.id for e in s.target.elts if isinstance(e, ast.Name)}
         elif isinstance(s, ast.Expr) and getattr(fn.ext, "mutates", None) is not None:
             out |= set(fn.ext.mutates(s))
     return out
@@ -138,7 +154,8 @@ def out_types(outs, box, node, want=None):
 
 def bind_outs(fn, text, outs, types, env, cont):
     """`outs <~ text ;; cont(env with outs re-bound)`"""
-    if types is None:                     # nothing falls through: what follows is dead, but must still translate
+    dead = types is None                  # nothing falls through: what follows is dead, but must still translate
+    if dead:
         types = []
         for v in outs:
             if v not in env:
@@ -149,7 +166,12 @@ def bind_outs(fn, text, outs, types, env, cont):
         nv = fn.fresh(v)
         e2 = rebind(e2, v, nv, t)
         names.append(nv)
-    c = cont(e2)
+    try:
+        c = cont(e2)
+    except _OffEnd:                       # [srcloop] no path falls through this statement and nothing follows it
+        if not dead:
+            raise
+        return text
     if c == "next %s" % tup(names):       # `outs <~ a ;; next outs` is `a` (right identity); keeps the text readable
         return text
     if len(names) <= 1:
@@ -175,7 +197,7 @@ def ends(block):
     if not block:
         return False
     s = block[-1]
-    if isinstance(s, (ast.Return, ast.Raise)):
+    if isinstance(s, (ast.Return, ast.Raise, ast.Continue)):       # [srcloop] continue
         return True
     if isinstance(s, ast.If):
         return ends(s.body) and ends(s.orelse)
@@ -208,13 +230,38 @@ def tr_block(fn, stmts, env, k, live):
         return cont(env)                                 # docstring
     if is_logging(s) or isinstance(s, ast.Pass):
         return cont(env)                                 # logging does not influence the effects
+    if isinstance(s, ast.Continue):                      # [srcloop]
+        if rest:
+            _bad("statements after continue", rest[0])
+        if "__loop" not in env:
+            _bad("continue outside a translated loop", s)
+        state, box = env["__loop"]
+        vals = []
+        for v in state:
+            if v not in env:
+                _bad("variable %s may be unbound at this continue" % v, s)
+            vals.append(env[v])
+        box.append([t for _, t in vals])
+        return "continue_ %s" % tup([g for g, _ in vals])
     if isinstance(s, ast.Return):
         if rest:
             _bad("statements after return", rest[0])
+        if "__noreturn" in env:                          # [srcloop]
+            _bad("return inside a loop that uses continue", s)
         rt = fn.spec.get("ret")
         if rt is not None:
             if s.value is None:
                 _bad("bare return in a function with a declared result", s)
+            prim = getattr(fn.ext, "prim", None)         # [srcloop] return [await] <primitive>(...)
+            r = prim(fn, s.value, env) if prim else None
+            if r is not None:
+                g, t, mut = r
+                if mut is not None:
+                    _bad("the result of a mutating primitive is returned", s)
+                if t != rt:
+                    _bad("return of %r where %r is declared" % (t, rt), s)
+                v = fn.fresh("ret")
+                return "%s <~ lift %s ;;\nreturn_v %s" % (v, g, v)
             g, t = pure(fn, s.value, env)
             if t != rt:
                 _bad("return of %r where %r is declared" % (t, rt), s)
@@ -368,32 +415,66 @@ def tr_try(fn, s, env, cont, live_rest):
 def tr_for(fn, s, env, cont, live_rest):
     if s.orelse:
         _bad("for ... else", s)
-    if not isinstance(s.target, ast.Name):
-        _bad("loop target that is not a local variable", s)
     lg, lt = pure(fn, s.iter, env)
     if lt.kind != "list":
         _bad("loop over %r" % lt, s)
-    x = s.target.id
-    if x in live_rest - names_used(s.body):
+    if isinstance(s.target, ast.Tuple):                  # [srcloop] for a, b in <list of pairs>
+        if not all(isinstance(e, ast.Name) for e in s.target.elts) or len({e.id for e in s.target.elts}) != len(s.target.elts):
+            _bad("loop target that is not a tuple of distinct local variables", s)
+        if lt.arg.kind != "pair" or len(lt.arg.arg) != len(s.target.elts):
+            _bad("a tuple loop target over %r" % lt, s)
+        xs, xts = [e.id for e in s.target.elts], list(lt.arg.arg)
+    elif isinstance(s.target, ast.Name):
+        xs, xts = [s.target.id], [lt.arg]
+    else:
+        _bad("loop target that is not a local variable", s)
+    if set(xs) & (live_rest - names_used(s.body)):
         _bad("the loop variable is read after the loop", s)
-    asg = assigned(fn, s.body) - {x}
-    for v in sorted(asg):
-        if v not in env and v in live_rest:
-            _bad("variable %s is first bound inside the loop and read after it" % v, s)
+    asg = assigned(fn, s.body) - set(xs)
+    # [srcloop] (a variable first bound inside the loop is not in scope after it: reading it there fails with "unknown
+    # name"; the explicit test that used to be here also fired for a loop nested in another loop's body, whose own
+    # names are live for the outer loop's next iteration)
     state = sorted(v for v in asg if v in env)
-    xv = fn.fresh(x)
-    benv, svs = rebind(env, x, xv, lt.arg), []
+    benv, svs, xvs = env, [], []
+    for x, xt in zip(xs, xts):
+        xv = fn.fresh(x)
+        benv = rebind(benv, x, xv, xt)
+        xvs.append(xv)
     for v in state:
         sv = fn.fresh(v)
         benv = rebind(benv, v, sv, env[v][1])
         svs.append(sv)
     box = []
-    b_text = tr_block(fn, s.body, benv, next_of(state, box, s), names_used(s.body) | live_rest)
+    benv = {p: b for p, b in benv.items() if p != "__loop"}       # [srcloop] an outer loop's continue does not reach in here
+    uses_continue = bool(own_continues(s.body))
+    if uses_continue:
+        benv["__loop"] = (tuple(state), box)
+        benv["__noreturn"] = (None, None)
+    # [srcloop] what the next iteration can read of this one: only names in scope at the loop's entry (anything else is
+    # unknown at the start of the body); was names_used(s.body), which made locals of a nested loop / an if-arm "live"
+    b_text = tr_block(fn, s.body, benv, next_of(state, box, s), (names_used(s.body) & set(env)) | live_rest)
     init = [env[v][1] for v in state]
     out_types(state, box, s, want=init)
     pat = "_" if not svs else svs[0] if len(svs) == 1 else "'(%s)" % ", ".join(svs)
-    text = "for_ %s (fun %s %s =>\n%s)\n%s" % (lg, xv, pat, b_text, tup([env[v][0] for v in state]))
+    xpat = xvs[0] if len(xvs) == 1 else "'(%s)" % ", ".join(xvs)
+    text = "%s %s (fun %s %s =>\n%s)\n%s" % ("for_c" if uses_continue else "for_", lg, xpat, pat, b_text,
+                                             tup([env[v][0] for v in state]))
     return bind_outs(fn, text, state, init, env, cont)
+
+
+def own_continues(stmts):
+    """[srcloop] the `continue` statements that belong to the loop whose body is stmts"""
+    out = []
+
+    def walk(n):
+        if isinstance(n, ast.Continue):
+            out.append(n)
+        elif not isinstance(n, (ast.For, ast.AsyncFor, ast.While)):
+            for c in ast.iter_child_nodes(n):
+                walk(c)
+    for st in stmts:
+        walk(st)
+    return out
 
 
 def indent(text):
@@ -460,15 +541,19 @@ def translate(repo, spec):
         fn = pygal.Fn(unit, fs)
         env = dict(spec.get("globals", {}))
         params = list(fs["params"]) + star
+        stmts = nd.body
+        if fs.get("body_of"):                            # [srcloop] translate a part of the function (see the docstring)
+            stmts, extra = fs["body_of"](nd)
+            params += list(extra)
         for p, t in params:
             env[p] = (p, t)
         rt = fs.get("ret")
         if rt is None:
-            body = tr_block(fn, nd.body, env, lambda e: "next tt", set())
+            body = tr_block(fn, stmts, env, lambda e: "next tt", set())
         else:       # every path must end in `return e` / `raise`: the type of the fall-through end is empty
             def off_end(e, nd=nd):
-                _bad("%s may fall off its end (it has a declared result)" % nd.name, nd)
-            body = tr_block(fn, nd.body, env, off_end, set())
+                raise _OffEnd("%s may fall off its end (it has a declared result) (line %d)" % (nd.name, nd.lineno))
+            body = tr_block(fn, stmts, env, off_end, set())
         ps = " ".join(([fs["gparams"]] if fs.get("gparams") else []) + ["(%s : %s)" % (p, gty(t)) for p, t in params])
         gname = fs.get("gname", nd.name)
         out.append("(* %s, lines %d-%d *)\nDefinition %s %s : %s %s :=\n%s (\n%s)." % (
@@ -479,4 +564,6 @@ def translate(repo, spec):
         spec["file"], info["sha256"][:16])
     head += "From Coq Require Import ZArith Bool List.\nImport ListNotations.\nFrom TQ Require Import %s.\n" % (
         " ".join(spec["imports"]))
+    if spec.get("scope"):                                # [srcloop]
+        head += spec["scope"] + "\n"
     return head + "\n" + "\n\n".join(out) + "\n", info
